@@ -39,6 +39,7 @@ package cfg
 // below).
 
 //@ func ParseNestedFields
+//@   option check-nil yes
 //@   ghost lastEq bool = false
 //@   ensures len(fields) == 0 ==> result1 != nil
 //@   assert at "paths = append(paths, path)" len(path) >= 1
@@ -78,6 +79,7 @@ package cfg
 // selected, either by its own number or by group 0, and nothing else is selected).
 
 //@ func VerifyGroupNumbers
+//@   option check-nil yes
 //@   option allow-exit yes
 //@   requires totalGroups >= 0
 //@   pure
@@ -98,6 +100,7 @@ package cfg
 // element visited (invariant); assumed: a lookup finds a key iff it was inserted.
 
 //@ func isGroupsUnique
+//@   option check-nil yes
 //@   pure
 //@   ghost nins int = 0
 //@   ensures result == distinct(groups)
